@@ -34,8 +34,10 @@ RENDERINGS = [
     ('20150830T123600,5Z', T0),
     ('20150830T122600-0010', T0),                  # offsets whose hour field is 00: the sign must come from the sign character
     ('2015-08-30T12:59:00+00:23', T0),
+    ('20150830T123600.9999999995Z', T0),           # more than nine fraction digits: truncated, never rounded (nor refused)
+    ('2015-08-30T12:36:00.99999999999999Z', T0),
 ]
-QUICK_RENDERINGS = (0, 1, 2, 3, 6, 7)
+QUICK_RENDERINGS = (0, 1, 2, 3, 6, 7, 8)
 
 
 def shapes(tier, seed):
